@@ -131,6 +131,23 @@ def check_laws(res, prop, sig, ranks, make, quick, label):
             res.violation(prop, "conditionalization", dict(case, formula=forms.txt(f), formula_f=f, which="compute"), exp, g1)
         if g2 != exp:
             res.violation(prop, "conditionalization", dict(case, formula=forms.txt(f), formula_f=f, which="existing"), exp, g2)
+    # 4b. two formulas that agree down to nesting depth 6 and differ below, one after the other on the same object
+    if n >= 2:
+        x, y = V(sig[0]), V(sig[1])
+        d1, d2 = y, N(y)
+        for _ in range(6):
+            d1, d2 = A(x, d1), A(x, d2)
+        for f in (d1, d2, O(d1, N(x)), O(d2, N(x))):
+            m = forms.mask(f, sig)
+            exp = {ws[w]: rk[w] for w in forms.bits(m)}
+            g1 = obs(lambda: dict(o.compute_conditionalization(forms.to_pysmt(f))))
+            g2 = obs(lambda: dict(o.conditionalize_existing_ranks(forms.to_pysmt(f))))
+            g3 = obs(lambda: o.formula_rank(forms.to_pysmt(f)))
+            res.evals += 3
+            if g1 != exp or g2 != exp:
+                res.violation(prop, "conditionalization", dict(case, formula=forms.txt(f), formula_f=f, which="deep"), exp, g1 if g1 != exp else g2)
+            if g3 != min(exp.values(), default=None):
+                res.violation(prop, "formula-rank", dict(case, formula=forms.txt(f), formula_f=f, deep=True), min(exp.values(), default=None), g3)
     # 5. tpo round trip
     tpo = obs(lambda: ranks2tpo(dict(ranks)))
     distinct = sorted(set(rk))
